@@ -513,6 +513,8 @@ func (w *world) close() {
 
 var nSched, nViol, nBlocked, nPoints, leaksSeen int
 
+const maxViol = 6
+
 // settled waits for the asynchronous removers / eviction callbacks to finish after everything was
 // closed and reports how many secrets are still live (0 = every key was released).
 func (w *world) settled() int64 {
@@ -536,6 +538,9 @@ func preempt(filter string) {
 	for _, sc := range scenarios() {
 		if filter != "" && !strings.Contains(sc.name, filter) {
 			continue
+		}
+		if nViol >= maxViol {
+			break // enough failing schedules to report; a broken tree must not cost hours of timeouts
 		}
 		// sequential oracles: A then B, and B then A, must both succeed; they also bound the number of
 		// KMS unwraps and metastore reads any interleaving of the two operations may make (C20)
@@ -581,7 +586,7 @@ func preempt(filter string) {
 			appencryption.VerifSetSyncHook(nil)
 			w.close()
 			nPoints += len(names)
-			for k := 1; k <= len(names); k++ {
+			for k := 1; k <= len(names) && nViol < maxViol; k++ {
 				w, err := prepare(sc, 7)
 				if err != nil {
 					break
@@ -665,7 +670,7 @@ func stress(rounds, goroutines, opsEach int, rng *prng.R) {
 		{sk: "lru:2", ik: "lfu:1"}, {sk: "simple", ik: "simple", sessCache: "slru:2"}, {sk: "lru:1", ik: "lru:1", sessCache: "lru:1"},
 		{sk: "lru:100", ik: "lru:100", shared: true}, // asynchronous eviction (capacity >= 100)
 	}
-	for r := 0; r < rounds; r++ {
+	for r := 0; r < rounds && nViol < maxViol; r++ {
 		cfg := cfgs[r%len(cfgs)]
 		w := newWorld(cfg, uint64(r)+1)
 		nParts := 4
